@@ -614,8 +614,19 @@ func nonLexicographicBranch(p *core.Prog, f *ssa.Function) string {
 // still has to read an identity key.
 func isRootLevelTest(p *core.Prog, cond ssa.Value, depth int) bool {
 	switch x := cond.(type) {
+	case *ssa.Extract:
+		// the boolean result of a helper (o, ok := compareTopLevel(a, b))
+		if call, ok := x.Tuple.(*ssa.Call); ok {
+			return isRootLevelTest(p, call, depth)
+		}
+		return false
+	case *ssa.UnOp:
+		if x.Op == token.NOT {
+			return isRootLevelTest(p, x.X, depth)
+		}
+		return false
 	case *ssa.BinOp:
-		if x.Op != token.EQL {
+		if x.Op != token.EQL && x.Op != token.NEQ {
 			return false
 		}
 		call, k := x.X, x.Y
@@ -646,6 +657,9 @@ func isRootLevelTest(p *core.Prog, cond ssa.Value, depth int) bool {
 				}
 			case *ssa.Return:
 				for _, rv := range t.Results {
+					if b, isBool := rv.Type().Underlying().(*types.Basic); !isBool || b.Kind() != types.Bool {
+						continue // the comparison result that accompanies the flag
+					}
 					switch r := rv.(type) {
 					case *ssa.Const, *ssa.Phi:
 					case *ssa.BinOp:
